@@ -135,23 +135,7 @@ def unwrap_foreign(x: Value):
             raise TypeError(f'unreachable: {x!r}')
 
 
-def _is_boundary_value(x) -> bool:
-    match x:
-        case bool() | Float() | Context():
-            return True
-        case Fraction():
-            return not is_dyadic(x)
-        case Foreign():
-            return False
-        case tuple() | list():
-            return all(_is_boundary_value(v) for v in x)
-        case _ if x is UNINIT:
-            return True
-        case _:
-            raise TypeError(f'not an FPy value: {x!r}')
-
-
-def _cvt_boundary(x: Value):
+def _cvt_boundary(x: Value, memo: dict[int, list]):
     match x:
         case bool() | Float() | Context():
             return x
@@ -160,9 +144,14 @@ def _cvt_boundary(x: Value):
         case Foreign():
             return x.val
         case tuple():
-            return tuple(from_value(v) for v in x)
+            return tuple(_cvt_boundary(v, memo) for v in x)
         case list():
-            return [from_value(v) for v in x]
+            # one fresh list per FPy list: sharing *inside* the value is kept
+            out = memo.get(id(x))
+            if out is None:
+                out = memo[id(x)] = []
+                out.extend(_cvt_boundary(v, memo) for v in x)
+            return out
         case _ if x is UNINIT:
             return x
         case _:
@@ -174,6 +163,9 @@ def from_value(x: Value):
     Converts a :data:`Value` crossing out of FPy to a Python object.
 
     Dyadic rationals fold to :class:`Float`, :class:`Foreign` unwraps
-    to its payload; containers are rebuilt only when needed.
+    to its payload. Containers are rebuilt unconditionally, like in
+    :func:`to_value`: the Python caller never holds a list that the
+    interpreter still owns (a captured free variable, say), so mutating
+    a result cannot change a later call.
     """
-    return x if _is_boundary_value(x) else _cvt_boundary(x)
+    return _cvt_boundary(x, {})
